@@ -133,10 +133,30 @@ def scale_of(V):
     return s if s > 0 else 1.0
 
 
-def match_new(Pa, Pe, scale):
-    """index list p with Pa[i] ~ Pe[p[i]] (bijection, 1e-9 rel.), None if there is none, 'ambiguous' if two expected
-    points are closer than 1e-6 rel."""
+def extent_of(V):
+    """size of the point set (largest side of its bounding box; 1.0 for a single point / empty set)"""
+    if not len(V):
+        return 1.0
+    e = float(np.max(np.max(V, axis=0) - np.min(V, axis=0)))
+    return e if e > 0 else 1.0
+
+
+def pos_tol(V):
+    """tolerance on a computed position: 1e-9 of the size of the mesh + rounding of coordinates far from the origin"""
+    return 1e-9 * extent_of(V) + 1e-13 * scale_of(V)
+
+
+def rel_tol(V):
+    """relative tolerance on an area / volume: 1e-9 + cancellation when the mesh is far from the origin compared with its size"""
+    return 1e-9 + 256 * 2.3e-16 * scale_of(V) / extent_of(V)
+
+
+def match_new(Pa, Pe, Vall):
+    """index list p with Pa[i] ~ Pe[p[i]] (bijection within pos_tol), None if there is none, 'ambiguous' if two expected
+    points are closer than 1e-6 of the size of the mesh Vall"""
     from scipy.spatial import cKDTree
+    scale = extent_of(Vall)
+    tol = pos_tol(Vall)
     if len(Pa) != len(Pe):
         return None
     if len(Pa) == 0:
@@ -147,7 +167,7 @@ def match_new(Pa, Pe, scale):
         if float(np.min(d[:, 1])) < 1e-6 * scale:
             return "ambiguous"
     d, idx = t.query(Pa, k=1)
-    if float(np.max(d)) > 1e-9 * scale or len(set(int(i) for i in idx)) != len(idx):
+    if float(np.max(d)) > tol or len(set(int(i) for i in idx)) != len(idx):
         return None
     return [int(i) for i in idx]
 
@@ -155,6 +175,7 @@ def match_new(Pa, Pe, scale):
 # ----------------------------------------------------------------------------------------------- geometry
 
 def newell(P):
+    P = P - P.mean(axis=0)          # vector area is translation invariant; centring keeps it accurate far from the origin
     n = np.zeros(3)
     for i in range(len(P)):
         n += np.cross(P[i], P[(i + 1) % len(P)])
@@ -167,7 +188,7 @@ def total_area(V, F):
 
 def is_flat(V, F):
     """every face with >=4 vertices is planar and (weakly) convex"""
-    s = scale_of(V)
+    s = extent_of(V)
     for f in F:
         if len(f) < 4:
             continue
@@ -271,8 +292,7 @@ def compare_refinement(ctx, S1, Ve, Fe, nOld, what):
         return False
     if not ctx.check(S1.V[:nOld].tobytes() == Ve[:nOld].tobytes(), "old-vertices", f"{what}: one of the first {nOld} vertices moved or was renumbered"):
         return False
-    s = scale_of(Ve)
-    p = match_new(S1.V[nOld:], Ve[nOld:], s)
+    p = match_new(S1.V[nOld:], Ve[nOld:], Ve)
     if p == "ambiguous":
         ctx.discard("coincident expected new vertices")
         return True
@@ -336,7 +356,7 @@ def check_triangulation_step(ctx, S0, S1, fids, what):
     err = ref1.validate()
     if not ctx.check(err is None, "step:valid", f"{what}: editor state is not a manifold surface: {err}"):
         return False
-    s = scale_of(S1.V)
+    s = pos_tol(S1.V) / 1e-9
     used_faces = set(i for i in range(nF0) if i not in fids)
     used_new = set()
     for fid in sorted(fids):
@@ -381,7 +401,7 @@ def check_fan_step(ctx, S0, S1, fid, what):
     if not ctx.check(S1.V[:nV0].tobytes() == S0.V.tobytes(), "old-vertices", f"{what}: an existing vertex moved"):
         return False
     c = S0.V[P].mean(axis=0)
-    if not ctx.check(float(np.linalg.norm(S1.V[nV0] - c)) <= 1e-9 * scale_of(S0.V), "new-vertices",
+    if not ctx.check(float(np.linalg.norm(S1.V[nV0] - c)) <= pos_tol(S0.V), "new-vertices",
                      f"{what}: new vertex {S1.V[nV0].tolist()} is not the centre {c.tolist()} of face {P}"):
         return False
     if not ctx.check(all(S1.F[i] == S0.F[i] for i in range(nF0) if i != fid), "untouched-faces", f"{what}: another face changed or moved"):
@@ -454,7 +474,7 @@ def shadow_run(ctx, S0, steps, what):
     cur = S0
     pc = Pfx(ctx, "decomposed:")
     for k, st_name in enumerate(steps):
-        m = surface_from(cur.V.tolist(), cur.F)
+        m = surface_from(cur.V.tolist(), cur.F, sorted(SurfRef(len(cur.V), cur.F).uedges))
         ed = M.mesh.SurfaceSubdivision(m)
         ed.__enter__()
         w = f"{what} / documented decomposition step {k} ({st_name}) on a fresh mesh"
@@ -555,16 +575,83 @@ SCALES = [1.0, 1.0, 1.0, 1.0, 1.0, 1e-6, 1e-3, 1e3, 1e6]
 
 def draw_scale_and_vform(draw, V, ok_int):
     """(V', scale label, vform): uniformly scaled coordinates, or integer-typed coordinates (rounded to a 1/16 lattice) when
-    ok_int(Vi) accepts them"""
+    ok_int(Vi) accepts them. Float coordinates are sometimes moved far from the origin (1e3 / 1e6 times the size of the
+    mesh) or scaled anisotropically: refinement commutes with affine maps."""
     k = draw(st.integers(0, 9))
     if k == 0:
         Vi = np.rint(np.array(V, dtype=float) * 16).astype(int)
         if ok_int(Vi):
-            return Vi.tolist(), 1.0, draw(st.sampled_from(["int", "npint"]))
+            return Vi.tolist(), 1.0, draw(st.sampled_from(["int", "npint"])), "plain"
     sc = draw(st.sampled_from(SCALES))
-    if sc != 1.0:
-        V = (np.array(V, dtype=float) * sc).tolist()
-    return V, sc, "float"
+    A = np.array(V, dtype=float) * sc
+    k2 = draw(st.integers(0, 9))
+    placement = "plain"
+    if k2 in (0, 1):
+        far = 1e3 if k2 == 0 else 1e6
+        A = A + np.array([0.6, -0.3, 0.74]) * far * extent_of(A)
+        placement = f"far-offset-x{far:g}"
+    elif k2 == 2:
+        A = A * np.array(draw(st.sampled_from([[1e-2, 1.0, 1e2], [1e2, 1e-2, 1.0], [1.0, 30.0, 1.0], [3.0, 1.0, 0.05]])))
+        placement = "anisotropic"
+    return A.tolist(), sc, "float", placement
+
+
+# config.complete_faces_from_cells / complete_edges_from_faces = False are NOT drawn for tetrahedral meshes: the unchanged
+# library does not register the faces / edges created by split_cell_as_fan and split_tet_from_face_center (it relies on the
+# completion done by prepare()), so the block ends in a KeyError. Reported as a finding with a proposed fix
+# (scratch/fixes/C13-7-*); set to True once that fix is in. Cases that carry the keys explicitly are honoured (replays).
+VOLUME_SWITCHES = False
+
+
+def draw_form(draw, nV, uniform):
+    """python type of the face / cell records: lists, tuples, numpy rows (several integer widths), or mouette.mesh.from_arrays"""
+    f = draw(st.sampled_from(["list", "list", "tuple", "np:int64", "np:int32", "np:int16", "np:uint8", "from_arrays"]))
+    if f == "np:uint8" and nV > 120:
+        f = "np:int32"
+    if f == "from_arrays" and not uniform:
+        f = "np:int64"
+    return f
+
+
+def draw_env(draw, volume=False):
+    """library-wide switches and argument forms"""
+    env = {"dup_warning": draw(st.integers(0, 3)) == 0, "ids": draw(st.sampled_from(["int", "int", "int", "np.int64", "np.int32", "np.intp"]))}
+    if not volume:
+        env["complete_edges"] = draw(st.integers(0, 2)) != 0       # False: the mesh is given with its explicit edge list
+    elif VOLUME_SWITCHES:
+        k = draw(st.integers(0, 5))
+        env["complete_faces"] = k != 1 and k != 2                   # False: explicit face and edge lists
+        env["complete_edges"] = k != 2 and k != 3
+    return env
+
+
+def draw_fail(draw):
+    """an exception escaping from the editing block (caught by the caller) after some of the operations"""
+    if draw(st.integers(0, 7)) != 3:
+        return None
+    return {"after": draw(st.integers(0, 4)), "how": draw(st.sampled_from(["bad-index", "bad-index", "user-error"]))}
+
+
+def as_id(i, idform):
+    if i is None or idform == "int":
+        return i
+    return {"np.int64": np.int64, "np.int32": np.int32, "np.intp": np.intp}[idform](i)
+
+
+def apply_env(env):
+    import mouette as M
+    M.config.display_duplicate_attribute_warning = bool(env.get("dup_warning", False))
+    M.config.complete_edges_from_faces = bool(env.get("complete_edges", True))
+    M.config.complete_faces_from_cells = bool(env.get("complete_faces", True))
+
+
+def label_env(ctx, case):
+    env = case.get("env", {})
+    if "complete_faces" in env:
+        ctx.label("complete_faces=" + str(env["complete_faces"]))
+    ctx.label("records=" + case.get("form", "list"), "ids=" + env.get("ids", "int"), "complete_edges=" + str(env.get("complete_edges", True)),
+              "dup_warning=" + str(env.get("dup_warning", False)), "exception-in-block=" + (case["fail"]["how"] if case.get("fail") else "no"))
+    ctx.label("placement=" + case.get("placement", "plain"))
 
 
 SURF_GROUPS = [["edge_id", "face_to_edges"], ["face_id"], ["is_triangular"], ["boundary_edges", "is_edge_on_border"],
@@ -597,16 +684,18 @@ def surface_case(draw):
     ops = [[draw(st.sampled_from(SURF_OPS)), draw(st.integers(0, 10 ** 4)), draw(st.integers(0, 5))] for _ in range(nops)]
     # connectivity queried beforehand: nothing / a few individual query kinds (each touches one lazily built table)
     pre = surf_queries(draw, 1, 4) if draw(st.integers(0, 2)) else []
-    V, sc, vform = draw_scale_and_vform(draw, s["V"], lambda Vi: len(set(map(tuple, Vi.tolist()))) == len(Vi))
+    V, sc, vform, placement = draw_scale_and_vform(draw, s["V"], lambda Vi: len(set(map(tuple, Vi.tolist()))) == len(Vi))
     second = None
     if draw(st.integers(0, 3)) == 0:
         # a second editing block on the same object (the result of the first block or the object given to it)
         second = {"on": draw(st.sampled_from(["result", "input"])), "sweep_first": draw(st.booleans()),
                   "pre": surf_queries(draw, 0, 3),
                   "ops": [[draw(st.sampled_from(SURF_OPS)), draw(st.integers(0, 10 ** 4)), draw(st.integers(0, 5))] for _ in range(draw(st.integers(1, 2)))]}
+    uniform = len(set(len(f) for f in s["F"])) == 1
     return {"V": V, "F": s["F"], "tags": s["tags"], "ops": ops, "pre": pre, "sort": draw(st.integers(0, 3)) != 0,
-            "form": draw(st.sampled_from(["list", "tuple"])), "sweep_seed": draw(st.integers(0, 1000)),
-            "scale": sc, "vform": vform, "verbose": draw(st.integers(0, 4)) == 0, "second": second}
+            "form": draw_form(draw, len(V), uniform and vform == "float"), "sweep_seed": draw(st.integers(0, 1000)),
+            "scale": sc, "vform": vform, "verbose": draw(st.integers(0, 4)) == 0, "second": second,
+            "env": draw_env(draw), "fail": draw_fail(draw), "placement": placement}
 
 
 def build_vertices(raw, V, vform):
@@ -618,14 +707,27 @@ def build_vertices(raw, V, vform):
         raw.vertices += [list(map(float, v)) for v in V]
 
 
-def build_surface(V, F, form, vform):
+def records(L, form):
+    if form == "tuple":
+        return [tuple(x) for x in L]
+    if form.startswith("np:"):
+        dt = np.dtype(form[3:])
+        return [np.array(x, dtype=dt) for x in L]
+    return [list(x) for x in L]
+
+
+def build_surface(V, F, form, vform, explicit_edges=False):
+    """explicit_edges: the complete edge list is declared (needed when config.complete_edges_from_faces is off)"""
     import mouette as M
     from mouette.mesh.mesh_data import RawMeshData
-    if vform == "float":
-        return surface_from(V, F, None, form)
+    E = sorted(SurfRef(len(V), F).uedges) if explicit_edges else None
+    if form == "from_arrays" and vform == "float" and len(set(len(f) for f in F)) == 1:
+        return M.mesh.from_arrays(np.array(V, dtype=float), E=None if E is None else np.array(E), F=np.array(F))
     raw = RawMeshData()
     build_vertices(raw, V, vform)
-    raw.faces += [tuple(f) if form == "tuple" else list(f) for f in F]
+    if E:
+        raw.edges += [tuple(e) for e in E]
+    raw.faces += records(F, "list" if form == "from_arrays" else form)
     return M.mesh.SurfaceMesh(raw)
 
 
@@ -666,7 +768,7 @@ def surface_invariants(ctx, V0, F0, SR, flat, what):
                    f"{what}: {refR.n_face_components()} components, input had {ref0.n_face_components()}") and ok
     if flat:
         a0, aR = total_area(np.asarray(V0, dtype=float), F0), total_area(SR.V, SR.F)
-        ok = ctx.check(abs(a0 - aR) <= 1e-9 * max(a0, 1e-300), "area", f"{what}: total area {aR!r}, input had {a0!r}") and ok
+        ok = ctx.check(abs(a0 - aR) <= rel_tol(SR.V) * max(a0, 1e-300), "area", f"{what}: total area {aR!r}, input had {a0!r}") and ok
     return ok
 
 
@@ -689,7 +791,51 @@ def check_input_object(ctx, m, snap, SR, refs, sort_on, seed, observe, sweep, wh
         sweep(m, refs[0][0], refs[0][1], sort_on, seed, pc, what + " [input object, expected to describe the original]")
 
 
-def run_surface_block(ctx, m, V0, F, flat, ops, sort_on, seed, verbose, tag, do_sweep):
+def input_after_exception(ctx, m, snap_diff, cur_diff, what):
+    """shared verdict: after an exception escaped from the block, the object passed in is its former self or a mesh on the
+    data processed so far"""
+    return Pfx(ctx, "input:").check(not snap_diff or not cur_diff, "mixture-after-exception",
+                                    f"{what}: the object passed to the editor is neither its former self (differs in {snap_diff}) nor a "
+                                    f"consistent mesh on the data processed before the exception (differs in {cur_diff})")
+
+
+def fail_surface_block(ctx, ed, m, snap, cur, fail, done, sort_on, seed, tag):
+    """leave the block through an exception, as a `with` statement whose body raised would, then look at the input object"""
+    exc = None
+    if fail["how"] == "bad-index":
+        bad = 10 ** 6 + len(cur.F)
+        try:
+            (ed.split_face_as_fan if fail["after"] % 2 else ed.triangulate_face)(bad)       # no such face
+        except Exception as e:
+            exc = e
+    if exc is None:
+        try:
+            raise RuntimeError("error raised by user code inside the editing block")
+        except RuntimeError as e:
+            exc = e
+    what = f"{tag}block left by {type(exc).__name__} after {done}"
+    ok, _ = ctx.call("editor:exit-after-exception", ed.__exit__, type(exc), exc, exc.__traceback__)
+    if not ok:
+        return
+    pc = Pfx(ctx, "input:")
+    Sin = observe_surface(m, pc, what)
+    if Sin is None:
+        return
+    d_snap = same_state(Sin, snap)
+    d_cur = []
+    if Sin.V.shape != cur.V.shape or Sin.V.tobytes() != cur.V.tobytes():
+        d_cur.append("vertices")
+    if Sin.F != cur.F:
+        d_cur.append("faces")
+    if Sin.corners != ([v for f in cur.F for v in f], [i for i, f in enumerate(cur.F) for _ in f]):
+        d_cur.append("face_corners")
+    if not input_after_exception(ctx, m, d_snap, d_cur, what):
+        return
+    St = cur if not d_cur else snap
+    surface_sweep(m, len(St.V), St.F, sort_on, seed, pc, what + " [input object]")
+
+
+def run_surface_block(ctx, m, V0, F, flat, ops, sort_on, seed, verbose, tag, do_sweep, idform="int", fail=None):
     """one editing block on the surface object m whose state is (V0,F). Returns (result object, its observed state) or None."""
     import mouette as M
     snap = observe_surface(m, ctx, tag + "input of the block")
@@ -707,14 +853,17 @@ def run_surface_block(ctx, m, V0, F, flat, ops, sort_on, seed, verbose, tag, do_
     if not ctx.check(not same_state(cur, snap, with_corners=False), "editor:enter", f"{tag}entering the block changed {same_state(cur, snap, False)}"):
         return None
     done = []
+    stop_at = None if not fail else fail["after"] % (len(ops) + 1)
     for k, (name, a, b) in enumerate(ops):
+        if stop_at is not None and k == stop_at:
+            break
         nF = len(cur.F)
         n = 1
         arg = None
         if name in ("triangulate_face", "fan"):
             arg = a % nF
         if name in ("loop", "sub6"):
-            n = 2 if b == 0 else 1
+            n = 2 if b == 0 else 3 if (b == 1 and name == "loop") else 1
         if sum(1 if len(f) == 3 else len(f) for f in cur.F) * growth(name, n) > MAX_FACES:
             ctx.label("op-skipped-size")
             continue
@@ -722,7 +871,7 @@ def run_surface_block(ctx, m, V0, F, flat, ops, sort_on, seed, verbose, tag, do_
         ctx.label("op=" + name + (str(n) if name in ("loop", "sub6") else ""))
         if not cur.all_tri and name in ("loop", "quads3", "sub6"):
             ctx.label("op-triangulates-first")
-        ok, _ = ctx.call("op:" + name, apply_surface_op, ed, name, arg, n)
+        ok, _ = ctx.call("op:" + name, apply_surface_op, ed, name, as_id(arg, idform), n)
         if not ok:
             return None
         done.append(name)
@@ -749,6 +898,9 @@ def run_surface_block(ctx, m, V0, F, flat, ops, sort_on, seed, verbose, tag, do_
         if not surface_invariants(ctx, V0, F, nxt, flat, what + " [editor state]"):
             return None
         cur = nxt
+    if fail:
+        fail_surface_block(ctx, ed, m, snap, cur, fail, done, sort_on, seed, tag)
+        return None
     ok, _ = ctx.call("editor:exit", ed.__exit__, None, None, None)
     if not ok:
         return None
@@ -804,10 +956,17 @@ def fn_surface(case, ctx):
     ctx.nontrivial(has_border or any(len(f) != 3 for f in F) or len(case["ops"]) >= 2 or bool(second))
 
     M.config.sort_neighborhoods = bool(case["sort"])
-    m = build_surface(V, F, case["form"], case.get("vform", "float"))
+    env = case.get("env", {})
+    apply_env(env)
+    label_env(ctx, case)
+    fail = case.get("fail")
+    if fail:
+        second = None
+    m = build_surface(V, F, case["form"], case.get("vform", "float"), not env.get("complete_edges", True))
     surface_queries(Pfx(ctx, "pre:"), m, V, F, case["pre"], case["sort"], "query before editing")
     sweep1 = not second or second["sweep_first"]
-    r = run_surface_block(ctx, m, V0, F, flat, case["ops"], case["sort"], case["sweep_seed"], bool(case.get("verbose")), "", sweep1)
+    r = run_surface_block(ctx, m, V0, F, flat, case["ops"], case["sort"], case["sweep_seed"], bool(case.get("verbose")), "", sweep1,
+                          idform=env.get("ids", "int"), fail=fail)
     if r is None or not second:
         return
     # ---- the same object is edited a second time (after a full sweep, a few single queries, or no query at all)
@@ -832,9 +991,10 @@ def ears_case(draw):
                         bases=["grid", "cyl_u", "fan_open", "fan_closed", "strip", "polygon", "octa", "antiprism", "strip", "polygon"]))
     k = draw(st.integers(0, 3))
     pre = [] if k == 0 else "all" if k == 1 else surf_queries(draw, 1, 3)
-    V, sc, vform = draw_scale_and_vform(draw, s["V"], lambda Vi: len(set(map(tuple, Vi.tolist()))) == len(Vi))
+    V, sc, vform, placement = draw_scale_and_vform(draw, s["V"], lambda Vi: len(set(map(tuple, Vi.tolist()))) == len(Vi))
     return {"V": V, "F": s["F"], "tags": s["tags"], "pre": pre, "sort": draw(st.integers(0, 3)) != 0,
-            "sweep_seed": draw(st.integers(0, 1000)), "scale": sc, "vform": vform, "twice": draw(st.booleans())}
+            "sweep_seed": draw(st.integers(0, 1000)), "scale": sc, "vform": vform, "twice": draw(st.booleans()),
+            "form": draw_form(draw, len(V), vform == "float"), "env": draw_env(draw), "placement": placement}
 
 
 def fn_ears(case, ctx):
@@ -849,7 +1009,10 @@ def fn_ears(case, ctx):
               f"scale={case.get('scale', 1.0):g}", "coords=" + case.get("vform", "float"))
     ctx.nontrivial(bool(ears))
     M.config.sort_neighborhoods = bool(case["sort"])
-    m = build_surface(V, F, "list", case.get("vform", "float"))
+    env = case.get("env", {})
+    apply_env(env)
+    label_env(ctx, case)
+    m = build_surface(V, F, case.get("form", "list"), case.get("vform", "float"), not env.get("complete_edges", True))
     if case["pre"] == "all":
         surface_sweep(m, len(V), F, case["sort"], case["sweep_seed"], Pfx(ctx, "pre:"), "before editing")
     elif case["pre"]:
@@ -1013,7 +1176,7 @@ def volume_invariants(ctx, V0, C0, SR, what):
     d0 = [tet_det(V0, c) for c in C0]
     dR = [tet_det(SR.V, c) for c in SR.C]
     v0, vR = sum(abs(x) for x in d0) / 6, sum(abs(x) for x in dR) / 6
-    ok = ctx.check(abs(v0 - vR) <= 1e-9 * v0, "volume", f"{what}: total volume {vR!r}, input had {v0!r}") and ok
+    ok = ctx.check(abs(v0 - vR) <= rel_tol(SR.V) * v0, "volume", f"{what}: total volume {vR!r}, input had {v0!r}") and ok
     if all(x > 0 for x in d0):
         ok = ctx.check(all(x > 0 for x in dR), "orientation", f"{what}: input cells all positively oriented, {sum(1 for x in dR if x <= 0)} result cells are not") and ok
     elif all(x < 0 for x in d0):
@@ -1023,7 +1186,7 @@ def volume_invariants(ctx, V0, C0, SR, what):
 
 def check_cell_step(ctx, name, arg, S0, S1, what):
     nV0, nC0, nF0 = len(S0.V), len(S0.C), len(S0.F)
-    s = scale_of(S0.V)
+    s = pos_tol(S0.V) / 1e-9
     if not ctx.check(len(S1.V) == nV0 + 1, "count:vertices", f"{what}: {len(S1.V)} vertices, expected {nV0 + 1}"):
         return False
     if not ctx.check(S1.V[:nV0].tobytes() == S0.V.tobytes(), "old-vertices", f"{what}: an existing vertex moved"):
@@ -1060,15 +1223,20 @@ def check_cell_step(ctx, name, arg, S0, S1, what):
         parent = [p for p in touched.values() if len(set(p) & set(cl)) == 3][0]
         if not ctx.check(tet_det(S1.V, cl) * tet_det(S0.V, parent) > 0, "orientation", f"{what}: new cell {cl} has the opposite orientation of the cell {parent} it refines"):
             return False
+    # face list inside the block: existing faces keep index and content (the split face is replaced by a piece of itself);
+    # whatever is appended is a face of a current cell, listed once (the remaining faces are completed when the block ends)
+    keep = [i for i in range(nF0) if exp_faces is None or i != arg]
+    if not ctx.check(len(S1.F) >= nF0 and all(S1.F[i] == S0.F[i] for i in keep), "untouched-faces", f"{what}: a face that is not being split changed or moved"):
+        return False
+    cell_faces_now = set(key(cl[:j] + cl[j + 1:]) for cl in S1.C for j in range(4))
+    listed = [key(f) for f in S1.F]
+    extra = ([listed[arg]] if exp_faces is not None else []) + listed[nF0:]
+    if not ctx.check(len(set(listed)) == len(listed) and all(len(set(k2)) == 3 and k2 in cell_faces_now for k2 in extra), "faces",
+                     f"{what}: the face list of the editor holds a face twice or a face of no current cell: {[k2 for k2 in extra if k2 not in cell_faces_now][:3]}"):
+        return False
     if exp_faces is not None:
-        if not ctx.check(len(S1.F) == nF0 + 2 and all(S1.F[i] == S0.F[i] for i in range(nF0) if i != arg), "untouched-faces",
-                         f"{what}: face list has {len(S1.F)} entries (expected {nF0 + 2}) or another face changed"):
-            return False
-        got = sorted(key(f) for f in [S1.F[arg]] + S1.F[nF0:])
-        if not ctx.check(got == exp_faces, "faces", f"{what}: face {S0.F[arg]} became {got}, expected {exp_faces}"):
-            return False
-    else:
-        if not ctx.check(S1.F == S0.F, "untouched-faces", f"{what}: face list changed inside the block"):
+        if not ctx.check(all(k2 in extra for k2 in exp_faces) and key(S0.F[arg]) not in listed, "faces",
+                         f"{what}: face {S0.F[arg]} became {extra[:6]}, expected its three pieces {exp_faces} (and not the face itself)"):
             return False
     return True
 
@@ -1124,24 +1292,30 @@ def volume_case(draw):
     def ok_int(Vi):
         d1 = [GT.lib_det(Vi.tolist(), c) for c in t["C"]]
         return all(x * y > 0 and abs(y) >= 1 for x, y in zip(d0, d1))
-    V, sc, vform = draw_scale_and_vform(draw, t["V"], ok_int)
+    V, sc, vform, placement = draw_scale_and_vform(draw, t["V"], ok_int)
     pre = vol_queries(draw, 1, 4) if draw(st.integers(0, 2)) else []
     second = None
     if draw(st.integers(0, 3)) == 0:
         second = {"on": draw(st.sampled_from(["result", "input"])), "sweep_first": draw(st.booleans()), "pre": vol_queries(draw, 0, 3), "ops": vol_ops(draw, 1, 2)}
     return {"V": V, "C": t["C"], "tags": t["tags"], "ops": vol_ops(draw, 1, 4), "pre": pre, "sort": draw(st.integers(0, 3)) != 0,
-            "form": draw(st.sampled_from(["list", "tuple"])), "sweep_seed": draw(st.integers(0, 1000)),
-            "scale": sc, "vform": vform, "verbose": draw(st.integers(0, 4)) == 0, "second": second}
+            "form": draw_form(draw, len(V), vform == "float"), "sweep_seed": draw(st.integers(0, 1000)),
+            "scale": sc, "vform": vform, "verbose": draw(st.integers(0, 4)) == 0, "second": second,
+            "env": draw_env(draw, volume=True), "fail": draw_fail(draw), "placement": placement}
 
 
-def build_volume(V, C, form, vform):
+def build_volume(V, C, form, vform, explicit_faces=False, explicit_edges=False):
     import mouette as M
     from mouette.mesh.mesh_data import RawMeshData
-    if vform == "float":
-        return volume_from(V, C, form)
+    if form == "from_arrays" and vform == "float" and not (explicit_faces or explicit_edges):
+        return M.mesh.from_arrays(np.array(V, dtype=float), C=np.array(C))
     raw = RawMeshData()
     build_vertices(raw, V, vform)
-    raw.cells += [tuple(c) if form == "tuple" else list(c) for c in C]
+    ref = TetRef(len(V), C)
+    if explicit_edges:
+        raw.edges += sorted(ref.ekeys)
+    if explicit_faces:
+        raw.faces += [list(f) for f in sorted(ref.fkeys)]
+    raw.cells += records(C, "list" if form == "from_arrays" else form)
     return M.mesh.VolumeMesh(raw)
 
 
@@ -1158,7 +1332,45 @@ def volume_queries(ctx, m, nV, C, queries, sort_on, where):
     return True
 
 
-def run_volume_block(ctx, m, V0, C, ops, sort_on, seed, verbose, tag, do_sweep):
+def fail_volume_block(ctx, ed, m, snap, cur, fail, done, sort_on, seed, tag):
+    exc = None
+    if fail["how"] == "bad-index":
+        try:
+            if fail["after"] % 2:
+                ed.split_cell_as_fan(10 ** 6 + len(cur.C))               # no such cell
+            else:
+                ed.split_tet_from_face_center(10 ** 6 + len(cur.F))      # no such face
+        except Exception as e:
+            exc = e
+    if exc is None:
+        try:
+            raise RuntimeError("error raised by user code inside the editing block")
+        except RuntimeError as e:
+            exc = e
+    what = f"{tag}block left by {type(exc).__name__} after {done}"
+    ok, _ = ctx.call("editor:exit-after-exception", ed.__exit__, type(exc), exc, exc.__traceback__)
+    if not ok:
+        return
+    pc = Pfx(ctx, "input:")
+    Sin = observe_volume(m, pc, what)
+    if Sin is None:
+        return
+    d_snap = same_vstate(Sin, snap)
+    d_cur = []
+    if Sin.V.shape != cur.V.shape or Sin.V.tobytes() != cur.V.tobytes():
+        d_cur.append("vertices")
+    if Sin.C != cur.C:
+        d_cur.append("cells")
+    if Sin.corners is None or Sin.corners[1] != [v for c in cur.C for v in c] or len(Sin.corners[2]) != 4 * len(cur.C) \
+            or Sin.corners[0] != [v for f in Sin.F for v in f]:
+        d_cur.append("corner records")
+    if not input_after_exception(ctx, m, d_snap, d_cur, what):
+        return
+    St = cur if not d_cur else snap
+    volume_sweep(m, len(St.V), St.C, sort_on, seed, pc, what + " [input object]")
+
+
+def run_volume_block(ctx, m, V0, C, ops, sort_on, seed, verbose, tag, do_sweep, idform="int", fail=None):
     """one editing block on the tetrahedral mesh object m whose state is (V0,C). Returns (result object, observed state) or None"""
     import mouette as M
     snap = observe_volume(m, ctx, tag + "input of the block")
@@ -1176,7 +1388,10 @@ def run_volume_block(ctx, m, V0, C, ops, sort_on, seed, verbose, tag, do_sweep):
     if not ctx.check(not same_vstate(cur, snap, with_corners=False), "editor:enter", f"{tag}entering the block changed {same_vstate(cur, snap, False)}"):
         return None
     done = []
+    stop_at = None if not fail else fail["after"] % (len(ops) + 1)
     for k, (name, a, b) in enumerate(ops):
+        if stop_at is not None and k == stop_at:
+            break
         if name == "cell_fan":
             arg = a % len(cur.C)
             fnc = ed.split_cell_as_fan
@@ -1199,7 +1414,7 @@ def run_volume_block(ctx, m, V0, C, ops, sort_on, seed, verbose, tag, do_sweep):
                 return None
             ctx.label("face_split:" + ("interior" if ncell == 2 else "border"))
         ctx.label("op=" + name)
-        ok, _ = ctx.call("op:" + name, fnc, arg)
+        ok, _ = ctx.call("op:" + name, fnc, as_id(arg, idform))
         if not ok:
             return None
         done.append(name)
@@ -1209,6 +1424,9 @@ def run_volume_block(ctx, m, V0, C, ops, sort_on, seed, verbose, tag, do_sweep):
         if not check_cell_step(ctx, name, arg, cur, nxt, what):
             return None
         cur = nxt
+    if fail:
+        fail_volume_block(ctx, ed, m, snap, cur, fail, done, sort_on, seed, tag)
+        return None
     ok, _ = ctx.call("editor:exit", ed.__exit__, None, None, None)
     if not ok:
         return None
@@ -1259,11 +1477,19 @@ def fn_volume(case, ctx):
     label_pre(ctx, case["pre"], VOL_TABLE)
     ctx.nontrivial(any(len(cs) == 2 for cs in ref0.f2c.values()) or len(case["ops"]) >= 2 or bool(second))
     M.config.sort_neighborhoods = bool(case["sort"])
-    m = build_volume(V, C, case["form"], case.get("vform", "float"))
+    env = case.get("env", {})
+    apply_env(env)
+    label_env(ctx, case)
+    fail = case.get("fail")
+    if fail:
+        second = None
+    m = build_volume(V, C, case["form"], case.get("vform", "float"), not env.get("complete_faces", True),
+                     not env.get("complete_faces", True) or not env.get("complete_edges", True))
     if not volume_queries(Pfx(ctx, "pre:"), m, len(V), C, case["pre"], case["sort"], "query before editing"):
         return
     sweep1 = not second or second["sweep_first"]
-    r = run_volume_block(ctx, m, V0, C, case["ops"], case["sort"], case["sweep_seed"], bool(case.get("verbose")), "", sweep1)
+    r = run_volume_block(ctx, m, V0, C, case["ops"], case["sort"], case["sweep_seed"], bool(case.get("verbose")), "", sweep1,
+                         idform=env.get("ids", "int"), fail=fail)
     if r is None or not second:
         return
     R, SR = r
@@ -1513,7 +1739,7 @@ def self_test():
     assert not check_triangulation_step(c, S0, SState(Qd, [[0, 1, 4], [1, 2, 4], [2, 3, 4], [3, 0, 4]], [], None), [0], "t")
     assert is_flat(Q, [[0, 1, 2, 3]]) and not is_flat(np.array([[0, 0, 0], [1, 0, 0], [.2, .2, 0], [0, 1, 0.0]]), [[0, 1, 2, 3]])
     assert tet_topology(4, [[0, 1, 2, 3]]) == {"euler": 1, "boundary euler": 2, "cell components": 1, "boundary components": 1}
-    assert match_new(np.array([[1., 0, 0], [0, 0, 0]]), np.array([[0., 0, 0], [1, 0, 0]]), 1.0) == [1, 0]
+    assert match_new(np.array([[1., 0, 0], [0, 0, 0]]), np.array([[0., 0, 0], [1, 0, 0]]), np.array([[0., 0, 0], [1, 0, 0]])) == [1, 0]
 
 
 SUBCHECKS = [
